@@ -211,6 +211,18 @@ impl<T> OptionParser<T> {
         let mut state = State::construct(args, &short_flags, &short_args, &mut err);
         #[cfg(bpaf_verif)]
         crate::verif::evx("construct", &state, &format!("\"kinds\":[{}]", state.verif_kinds()));
+        #[cfg(bpaf_verif)]
+        crate::verif::evx(
+            "tokens",
+            &state,
+            &format!(
+                "\"items\":[{}],\"flags\":[{}],\"args\":[{}],\"amb\":{}",
+                state.verif_items(),
+                short_flags.iter().map(|c| format!("{:?}", c.to_string().as_bytes())).collect::<Vec<_>>().join(","),
+                short_args.iter().map(|c| format!("{:?}", c.to_string().as_bytes())).collect::<Vec<_>>().join(","),
+                err.is_some()
+            ),
+        );
 
         // this only handles disambiguation failure in construct
         if let Some(msg) = err {
